@@ -10,7 +10,7 @@ from __future__ import annotations
 
 from checks.c13 import replay_case, run_sessions
 
-VERDICTS = {"reload_differs"}
+VERDICTS = {"reload_differs", "reinitialised_after_reload"}
 
 F = ["Call:fwdlike", "plain"]
 PATTERNS = [
